@@ -830,7 +830,7 @@ def run(ctx):
             ctx.violation('replay', dict(A=src['A'], B=src['B'], implementation=c.impl, oracle=c.model, why=[m_ for _, m_ in bad]), msg=bad[0][1])
         ctx.count((src['A'], src['B']), True)
         return
-    n = 5000 if ctx.quick else 180000
+    n = 5000 if ctx.quick else 150000
     cases = corpus_cases()
     # ---- XML corpus
     xml = xml_cases()
